@@ -48,7 +48,7 @@ class BufferCmd(SoundCmd):
         idx += 4
         logging.debug("to_be_defined = %d", to_be_defined)
     
-        sampleRateInt =  int(struct.unpack('>h', fdata[idx:idx+2])[0])
+        sampleRateInt =  int(struct.unpack('>H', fdata[idx:idx+2])[0])
         idx += 2
         
         sampleRateDec =  int(struct.unpack('>h', fdata[idx:idx+2])[0])
